@@ -115,6 +115,10 @@ func c02Reply(fn byte) (*vDriver, *uhppote, uint32, []byte) {
 	verifAssume(r[0] == 0x17 && r[1] == fn && specGet32(r, 4) == id)
 	d := &vDriver{seq: [][]byte{r}}
 	u := vClient(d)
+	if c02Configured {
+		d.seq, d.reply = nil, r
+		vConfigure(u, id, "udp")
+	}
 	if c02Earlier != nil {
 		// an earlier call of the same operation on the same client, with its own arbitrary (accepted) reply:
 		// the result of the call under test must not depend on it
@@ -133,6 +137,9 @@ func c02Reply(fn byte) (*vDriver, *uhppote, uint32, []byte) {
 }
 
 var c02Earlier func(u *uhppote, id uint32) error
+
+// c02Configured: the controller is configured (directed route) with a time zone of its own
+var c02Configured bool
 
 // c02Narrow: optional restriction of the current reply in the 'twice' harnesses (keeps the number of heap
 // shapes small when leftovers of the earlier call make pointer fields differ)
